@@ -279,7 +279,7 @@ extern void MPT_COPY_FCN(int pts, const MPT_COPY_ST *src, int lds, MPT_COPY_DT *
 	}
 	if (!lds) {
 		for (i = 0; i < pts; i++) {
-			dest[i] = src[0];
+			dest[i * ldd] = src[0];
 		}
 		return;
 	}
